@@ -429,6 +429,13 @@ def gen_keys_meters(shard):
             for nbars in (1, 2):
                 bars = [Z.bar_recipe(Z.PATTERNS_WHOLE[(p + 5 * i) % 12], key=key, meter=meter) for i in range(nbars)]
                 yield {"comp": {"tracks": [{"name": None, "instrument": None, "bars": bars}]}, "bpm": 120}
+    if key in ("C", "f#", "Cb"):
+        # counts that need the whole data byte of the time signature event
+        for meter in ((128, 128), (192, 128), (255, 128), (200, 64)):
+            for p in (0, 3):
+                for nbars in (1, 2):
+                    bars = [Z.bar_recipe(Z.PATTERNS_WHOLE[(p + 5 * i) % 12], key=key, meter=meter) for i in range(nbars)]
+                    yield {"comp": {"tracks": [{"name": None, "instrument": None, "bars": bars}]}, "bpm": 120}
     # compositions whose tracks differ in key (and meter): every ordered pair of keys, and three tracks returning to the first key
     for j, key2 in enumerate(Z.KEYS30):
         m1, m2 = Z.METERS[j % len(Z.METERS)], Z.METERS[(j + 1) % len(Z.METERS)]
